@@ -31,13 +31,14 @@ const rule = "state machine on the real application (tx semantics): 3 funded act
 var denoms = []string{"aaa", "bbb", "ccc", "ddd", "uosmo"}
 
 type world struct {
-	c       *chain.Chain
-	pools   []uint64
-	isStab  map[uint64]bool
-	direct  map[uint64]map[string]*big.Int // coins sent straight to a pool address
-	tracked []sdk.AccAddress
-	hist    []string
-	classes map[string]bool
+	c                        *chain.Chain
+	pools                    []uint64
+	isStab                   map[uint64]bool
+	controller               map[uint64]int                 // stableswap pools with a scaling-factor controller: pool id -> actor
+	direct                   map[uint64]map[string]*big.Int // coins sent straight to a pool address
+	tracked                  []sdk.AccAddress
+	hist                     []string
+	classes                  map[string]bool
 	multiHop, single, failed bool
 }
 
@@ -122,7 +123,7 @@ func genAmt(rt *rapid.T, label string, ref *big.Int) *big.Int {
 func TestPropGamm(t *testing.T) {
 	drv.Check(t, drv.Cfg{Name: "gamm-conservation", Rule: rule, Quick: 200, Thorough: 4000, Steps: 30, TSteps: 60}, func(rt *rapid.T, cs *drv.Case) {
 		c := chain.New(t)
-		w := &world{c: c, isStab: map[uint64]bool{}, direct: map[uint64]map[string]*big.Int{}, classes: map[string]bool{}}
+		w := &world{c: c, isStab: map[uint64]bool{}, controller: map[uint64]int{}, direct: map[uint64]map[string]*big.Int{}, classes: map[string]bool{}}
 		huge, _ := new(big.Int).SetString("1000000000000000000000000000000", 10)
 		for a := 0; a < 3; a++ {
 			var cs sdk.Coins
@@ -359,10 +360,50 @@ func TestPropGamm(t *testing.T) {
 				}
 				fee := osmomath.NewDecWithPrec(rapid.Int64Range(0, 500).Draw(rt, "spreadBp"), 4)
 				msg := stableswap.NewMsgCreateStableswapPool(chain.Actor(a), stableswap.PoolParams{SwapFee: fee, ExitFee: osmomath.ZeroDec()}, liq, sfs, "")
+				// half of the stableswap pools have a scaling-factor controller (their creator) who may re-scale the live pool
+				if rapid.Bool().Draw(rt, "withController") {
+					msg.ScalingFactorController = chain.Actor(a).String()
+				}
 				r, _, _ := run("createStable", &msg, false)
 				if r.OK() {
 					newPool(r, true)
+					if msg.ScalingFactorController != "" {
+						w.controller[w.pools[len(w.pools)-1]] = a
+					}
 					w.hist = append(w.hist, fmt.Sprintf("createStable#%d fee=%s %s sf=%v", w.pools[len(w.pools)-1], fee, liq, sfs))
+				}
+			},
+			// re-scaling a live stableswap pool moves no funds and mints nothing: the generic invariants of run() and of the
+			// step check apply (reserves == balances, supplies constant), and every later swap / join / exit runs on the new
+			// factors. Somebody who is not the controller (or any sender on a pool without one) must be rejected without trace.
+			"adjustScalingFactors": func(rt *rapid.T) {
+				var stab []uint64
+				for _, id := range w.pools {
+					if w.isStab[id] {
+						stab = append(stab, id)
+					}
+				}
+				if len(stab) == 0 {
+					rt.Skip("no stableswap pool")
+				}
+				id := stab[rapid.IntRange(0, len(stab)-1).Draw(rt, "stablePool")]
+				var sfs []uint64
+				for range poolDenoms(id) {
+					sfs = append(sfs, uint64(rapid.SampledFrom([]int64{1, 1, 2, 10, 1000, 1_000_000}).Draw(rt, "newSf")))
+				}
+				ctl, has := w.controller[id]
+				snd := rapid.IntRange(0, 3).Draw(rt, "adjSender")
+				if has && rapid.IntRange(0, 3).Draw(rt, "byController") > 0 {
+					snd = ctl
+				}
+				msg := &stableswap.MsgStableSwapAdjustScalingFactors{Sender: chain.Actor(snd).String(), PoolID: id, ScalingFactors: sfs}
+				r, _, _ := run(fmt.Sprintf("adjustScalingFactors#%d %v by actor %d", id, sfs, snd), msg, false)
+				if r.OK() {
+					if !has || snd != ctl {
+						rt.Fatalf("scaling factors of stableswap pool %d were changed by actor %d who is not its controller (has controller: %v, actor %d) [history %v]", id, snd, has, ctl, w.hist)
+					}
+					w.hist = append(w.hist, fmt.Sprintf("adjustScalingFactors#%d %v", id, sfs))
+					w.classes["stableswap-rescaled"] = true
 				}
 			},
 			"joinPool": func(rt *rapid.T) {
@@ -720,7 +761,9 @@ func TestPropGamm(t *testing.T) {
 }
 
 // snapshotWithBase is a no-op hook kept for symmetry (new pool accounts start empty).
-func (w *world) snapshotWithBase(b map[string]map[string]*big.Int) map[string]map[string]*big.Int { return b }
+func (w *world) snapshotWithBase(b map[string]map[string]*big.Int) map[string]map[string]*big.Int {
+	return b
+}
 
 // TestRegress_C02_drained_asset: the fixed finding must stay fixed - a swap that would take the whole
 // reserve of an asset either fails or leaves the reported reserves equal to the pool account's balance.
